@@ -47,6 +47,8 @@ const (
 	opDisconnectDial   = 23 // client cl disconnects; the NEXT client (arg) is dialled from inside cl's close callback (if set)
 	opClientGone       = 24 // the client of a connection whose handler is blocked closes its end: the reply write will fail
 	opShutdownInServe  = 25 // first op: Shutdown is called from inside OnServeFunc (if set; else before Serve)
+	opLongRead         = 27 // pseudo-op at the front: Server.ReadTimeout 30 s -- an idle connection sits in Read and does not notice a cancelled context
+	opReserve          = 28 // the SAME Server value is served again, on a new listener with a new context (after the first Serve has returned)
 	opWriteTimeout     = 26 // pseudo-op at the front: Server.WriteTimeout of the run in ms (cl; 0 = the server's default 50 ms)
 	opBurst            = 22 // first op: cl connections are queued in the listener before Serve starts; the accept callback (if set) rejects when told a count > arg (arg 0: no limit)
 )
@@ -90,6 +92,8 @@ type lcRun struct {
 	cancelled bool
 	shutBegun bool // some Shutdown call has been made: isShutdown is (being) set
 	limit     int
+	longRead  bool
+	reserve   func()        // starts Serve again
 	wt        time.Duration // effective write timeout of the server in this run
 	inbound   int
 	refused   int
@@ -181,7 +185,13 @@ func runLifecycle(cfg int, script []lcOp) (events []lcEvent, extra [3]int, summa
 		wt = time.Duration(script[0].cl) * time.Millisecond
 		script = script[1:]
 	}
-	s := &server.Server{ReadTimeout: 10 * time.Millisecond, WriteTimeout: wt}
+	rt := 10 * time.Millisecond
+	if len(script) > 0 && script[0].op == opLongRead {
+		rt = 30 * time.Second
+		r.longRead = true
+		script = script[1:]
+	}
+	s := &server.Server{ReadTimeout: rt, WriteTimeout: wt}
 	r.wt = wt
 	if wt == 0 {
 		r.wt = 50 * time.Millisecond // the server's default
@@ -293,23 +303,39 @@ func runLifecycle(cfg int, script []lcOp) (events []lcEvent, extra [3]int, summa
 		w.mu.Unlock()
 	}
 
-	go func() {
-		defer close(r.serveRet)
-		code := -1
-		func() {
-			defer func() {
-				if rec := recover(); rec != nil {
-					r.escaped = 1
-				}
+	startServe := func(ctx context.Context, lis *memListener, ret chan struct{}) {
+		go func() {
+			defer close(ret)
+			code := -1
+			func() {
+				defer func() {
+					if rec := recover(); rec != nil {
+						r.escaped = 1
+					}
+				}()
+				code = errCode(s.Serve(ctx, lis, lcHandler{r}), server.ErrServerClosed)
 			}()
-			code = errCode(s.Serve(ctx, r.lis, lcHandler{r}), server.ErrServerClosed)
+			if code >= 0 {
+				w.log(evServeReturn, 0, code, 0)
+			}
 		}()
-		if code >= 0 {
-			w.log(evServeReturn, 0, code, 0)
-		}
-	}()
-	// Serve is inside Accept => the listener has been published
-	w.waitFor("serve accepting", func() bool { return r.lis.accepts >= 1 || r.lis.closed })
+		// Serve is inside Accept => the listener has been published
+		w.waitFor("serve accepting", func() bool { return lis.accepts >= 1 || lis.closed })
+	}
+	startServe(ctx, r.lis, r.serveRet)
+	r.reserve = func() {
+		// the same Server value, a new listener, a new context
+		ctx2, cancel2 := context.WithCancel(context.Background())
+		w.mu.Lock()
+		r.lis = &memListener{w: w}
+		r.cancel = cancel2
+		w.cancelFn = cancel2
+		r.serveRet = make(chan struct{})
+		w.mu.Unlock()
+		r.stopped = false
+		r.cancelled = false
+		startServe(ctx2, r.lis, r.serveRet)
+	}
 
 	for i := 0; i < burst; i++ {
 		cl := r.clients[i]
@@ -713,6 +739,12 @@ func (r *lcRun) step(o lcOp) {
 		w.waitFor("shutdown begun", func() bool { return r.lis.closed || w.countLocked(evSdReturn, 0) > r.sdSeen })
 	case opAwaitShutdown:
 		r.doAwaitShutdown()
+	case opReserve:
+		if !r.stopped || r.shutBegun || r.anyHeld() {
+			return
+		}
+		r.awaitServe()
+		r.reserve()
 	case opCancel:
 		if r.cancelled {
 			return
@@ -814,8 +846,8 @@ func (r *lcRun) afterCancel() {
 	r.cancelled = true
 	for _, k := range r.sortedClients() {
 		cl := r.clients[k]
-		if cl.state == 1 && !cl.blocked && !cl.wwait {
-			r.awaitGone(cl)
+		if cl.state == 1 && !cl.blocked && !cl.wwait && !r.longRead {
+			r.awaitGone(cl) // (with a long read timeout an idle connection stays in Read: it does not see the context)
 		}
 	}
 }
@@ -1120,6 +1152,55 @@ func lcWithWriteTimeout(sc []lcOp, n int) []lcOp {
 		}
 	}
 	return append([]lcOp{{opWriteTimeout, ms, 0}}, sc...)
+}
+
+// Stream "lifecycle_reserve": the same Server value served twice.  The first Serve is ended by cancelling
+// its context while a connection of it is still alive (a handler in flight, or an idle connection in a
+// long Read); Serve is called again on a new listener; then Shutdown.  The LTS models one call of serve,
+// so these runs are NOT replayed through it: they are judged by the executable statement of C17 alone
+// (verdict_lifecycle_C17: a Shutdown that returns nil has closed every connection Accept had returned,
+// no started handler is left without its reply, Serve returns ErrServerClosed, ...).
+func init() {
+	streams["lifecycle_reserve"] = func(seed uint64, thorough bool) {
+		log.SetOutput(lcLogWriter{})
+		log.SetFlags(0)
+		scripts := [][]lcOp{
+			{{opWriteTimeout, 60000, 0}, {opConnect, 0, 0}, {opSend, 0, hBlock}, {opCancel, 0, 0}, {opReserve, 0, 0}, {opShutdownAsync, 0, 0}, {opRelease, 0, 0}, {opAwaitShutdown, 0, 0}},
+			{{opWriteTimeout, 60000, 0}, {opLongRead, 0, 0}, {opConnect, 0, 0}, {opSend, 0, hNormal}, {opCancel, 0, 0}, {opReserve, 0, 0}, {opConnect, 1, 0}, {opSend, 1, hNormal}, {opShutdown, 0, 0}},
+			{{opWriteTimeout, 60000, 0}, {opLongRead, 0, 0}, {opConnect, 0, 0}, {opConnect, 1, 0}, {opSend, 1, hBlock}, {opCancel, 0, 0}, {opReserve, 0, 0}, {opShutdownAsync, 0, 0}, {opRelease, 0, 0}, {opAwaitShutdown, 0, 0}},
+		}
+		type rres struct {
+			evs []lcEvent
+			x   [3]int
+			sum V
+		}
+		res := make([]rres, 16*len(scripts))
+		var wg sync.WaitGroup
+		for cfg := 0; cfg < 16; cfg++ {
+			for i, sc := range scripts {
+				wg.Add(1)
+				go func(n, cfg int, sc []lcOp) {
+					defer wg.Done()
+					evs, x, sum := runLifecycle(cfg, sc)
+					res[n] = rres{evs, x, sum}
+				}(cfg*len(scripts)+i, cfg, sc)
+			}
+		}
+		wg.Wait()
+		for cfg := 0; cfg < 16; cfg++ {
+			for i, sc := range scripts {
+				rr := res[cfg*len(scripts)+i]
+				var scv, ev []V
+				for _, o := range sc {
+					scv = append(scv, L(I(o.op), I(o.cl), I(o.arg)))
+				}
+				for _, e := range rr.evs {
+					ev = append(ev, L(I(e.code), I(e.c), I(e.a), I(e.b)))
+				}
+				emit("lifecycle_reserve", L(I(cfg), L(scv...), L(ev...), L(I(rr.x[0]), I(rr.x[1]), I(rr.x[2])), rr.sum), vOk(rr.sum))
+			}
+		}
+	}
 }
 
 func init() {
